@@ -228,9 +228,9 @@ func init() {
 		"github.com/pkg/errors.Errorf": func(c *FnCtx, f *ssa.Function, a []Val, rt types.Type, pos token.Pos) (Val, bool) {
 			return Val{T: errNonNil(c), S: SAny}, true
 		},
-		"github.com/pkg/errors.Wrap":   wrapModel,
-		"github.com/pkg/errors.Wrapf":  wrapModel,
-		"github.com/pkg/errors.WithStack": wrapModel,
+		"github.com/pkg/errors.Wrap":        wrapModel,
+		"github.com/pkg/errors.Wrapf":       wrapModel,
+		"github.com/pkg/errors.WithStack":   wrapModel,
 		"github.com/pkg/errors.WithMessage": wrapModel,
 		"fmt.Sprintf": func(c *FnCtx, f *ssa.Function, a []Val, rt types.Type, pos token.Pos) (Val, bool) {
 			return c.sprintfModel(a), true
@@ -330,6 +330,9 @@ func (c *FnCtx) splitModel(s, sep, n string) Val {
 	cnt := c.freshConst("nparts", SInt)
 	row := c.freshConst("parts", "(Array Int Str)")
 	sepLit, sepKnown := c.litContent(sep)
+	if sl, ok := c.litContent(s); ok && sepKnown && sepLit == "." {
+		c.literalSplitFacts(s, sl)
+	}
 	if n == "" {
 		c.fact(fmt.Sprintf("(= %s (splitcount %s %s))", cnt, s, sep))
 		if sepKnown && sepLit != "" {
